@@ -455,6 +455,26 @@ def MapObj.ungroup (m : MapObj α β) : MapObj α β := { m with gmeta := none }
 def MapObj.reorder (m : MapObj α β) (idx : List Nat) : MapObj α β :=
   { m with rows := Np.take idx m.rows, gmeta := none }
 
+/-- `sort()` with the default keys: `reorder(lexsort((genpos, phypos, chrgrp)))` — the arrays as the constructor
+    stores them, the four metadata arrays reset to `None` (`sort(keys)` with explicit keys is `reorder` with the
+    index array numpy.lexsort returns) -/
+def MapObj.sort (m : MapObj α β) : MapObj α β := { m with rows := construct m.rows, gmeta := none }
+
+/-- `key[i] <= key[j]`: the comparison of one stable argsort pass -/
+def keyLe {κ : Type} [LT κ] [DecidableLT κ] (key : List κ) (i j : Nat) : Bool :=
+  match key[i]?, key[j]? with
+  | some a, some b => !decide (b < a)
+  | _, _ => true
+
+/-- `numpy.lexsort(keys)` as numpy performs it: starting from `arange(n)`, one stable argsort per key, from the FIRST
+    key to the LAST (so the last key is the primary one) -/
+def lexsortIdx {κ : Type} [LT κ] [DecidableLT κ] (keys : List (List κ)) (n : Nat) : List Nat :=
+  keys.foldl (fun idx key => Np.stableSort (keyLe key) idx) (List.range n)
+
+/-- `sort(keys)` with explicit keys (one array, or a tuple of arrays): `reorder(lexsort(keys))` -/
+def MapObj.sortKeys {κ : Type} [LT κ] [DecidableLT κ] (m : MapObj α β) (keys : List (List κ)) : MapObj α β :=
+  m.reorder (lexsortIdx keys m.rows.length)
+
 /-- re-sort and re-group only "if GeneticMap was previously grouped" -/
 def MapObj.regroup (m : MapObj α β) (r : List (Row α β)) : MapObj α β :=
   if m.grouped then { m with rows := construct r, gmeta := some (groupMeta (construct r)) }
@@ -569,10 +589,11 @@ def derivedRows : List Int → List α → List β → List (Option α) → Opti
     | some y => (derivedRows cs xs ts gs).map (({ chr := c, phy := x, gen := y, tag := t } : Row α β) :: ·)
   | _, _, _, _ => some []
 
-/-- `interp_gmap()` AS IS: the new object gets the interpolated positions, a copy of the spline — and a copy
-    of the PARENT's four metadata arrays, which describe the parent's arrays, not its own.
-    Result: (derived map, parent after the call); inner `none` = no spline / NaN positions. -/
-def MapObj.interpGmap (m : MapObj α β) (qchr : List Int) (qphy : List α) (tags : List β) :
+/-- `interp_gmap()` BEFORE the repair of D110 (kept for the record, see
+    `C11.interp_gmap_stale_metadata_prerepair_counterexample`): the new object got the interpolated positions, a
+    copy of the spline — and a copy of the PARENT's four metadata arrays, which describe the parent's arrays,
+    not its own.  Result: (derived map, parent after the call); inner `none` = no spline / NaN positions. -/
+def MapObj.interpGmapPrerepair (m : MapObj α β) (qchr : List Int) (qphy : List α) (tags : List β) :
     Except Err (Option (MapObj α β × MapObj α β)) :=
   match m.interpGenposLit qchr qphy with
   | .error e => .error e
@@ -582,13 +603,21 @@ def MapObj.interpGmap (m : MapObj α β) (qchr : List Int) (qphy : List α) (tag
     | none => .ok none
     | some rows => .ok (some ({ rows := rows, gmeta := m'.gmeta, spline := m'.spline }, m'))
 
-/-- `interp_gmap()` with the proposed repair: the new object is left ungrouped (the constructor call with
-    `auto_group = False` already set the four arrays to `None`) -/
-def MapObj.interpGmapFixed (m : MapObj α β) (qchr : List Int) (qphy : List α) (tags : List β) :
+/-- `interp_gmap()` as it is now: `interp_genpos` on the parent (which may group the parent as a side effect
+    and, on a parent with metadata that does not fit, raise), then a constructor call with
+    `auto_group = False, auto_build_spline = False`: the new object holds the queried labels / positions in
+    the order given, the interpolated genetic positions, a copy of the parent's spline, and NO group
+    metadata (the constructor sets the four arrays to `None`; nothing is copied from the parent).
+    Result: (derived map, parent after the call); inner `none` = no spline / NaN positions. -/
+def MapObj.interpGmap (m : MapObj α β) (qchr : List Int) (qphy : List α) (tags : List β) :
     Except Err (Option (MapObj α β × MapObj α β)) :=
-  match m.interpGmap qchr qphy tags with
-  | .ok (some (d, m')) => .ok (some ({ d with gmeta := none }, m'))
-  | r => r
+  match m.interpGenposLit qchr qphy with
+  | .error e => .error e
+  | .ok (none, _) => .ok none
+  | .ok (some gen, m') =>
+    match derivedRows qchr qphy tags gen with
+    | none => .ok none
+    | some rows => .ok (some ({ rows := rows, gmeta := none, spline := m'.spline }, m'))
 
 /-- re-assignment of `vrnt_phypos` / `vrnt_genpos` through the property setters: the arrays change, the
     metadata and the spline stay -/
@@ -605,7 +634,8 @@ def derivedOf (r : Except Err (Option (MapObj α β × MapObj α β))) : Option 
   | .ok (some (d, _)) => some d
   | _ => none
 
-/-- the stored metadata describes the stored arrays (what every method except `interp_gmap` maintains) -/
+/-- the stored metadata describes the stored arrays (what every method maintains; before the repair of D110
+    `interp_gmap` did not) -/
 def MapObj.MetaOk (m : MapObj α β) : Prop := ∀ mt, m.gmeta = some mt → mt = groupMeta m.rows
 
 end object
